@@ -64,6 +64,8 @@ type Target struct {
 	// down gracefully): an overrun timeout must still be a failure
 	TrapExit0 bool   `json:"trap_exit0,omitempty"`
 	SleepIf   string `json:"sleep_if,omitempty"` // marker: sleep 20 s when present
+	// SleepIfMs: how long to sleep instead of 20 s (an overrun just beyond the timeout)
+	SleepIfMs int    `json:"sleep_if_ms,omitempty"`
 	Omit      string `json:"omit,omitempty"`
 	OmitIf    string `json:"omit_if,omitempty"` // marker: do not write outputs when present
 	// Dangle: an omitted output is not simply absent: a symlink that points nowhere sits at its
@@ -221,6 +223,9 @@ func (t *Target) Command() string {
 	}
 	if t.SleepIf != "" {
 		sb.WriteString(" --sleepif " + shq(t.SleepIf))
+		if t.SleepIfMs > 0 {
+			fmt.Fprintf(&sb, " --sleepifms %d", t.SleepIfMs)
+		}
 	}
 	if t.SleepAfterMs != 0 {
 		fmt.Fprintf(&sb, " --sleepafter %d", t.SleepAfterMs)
